@@ -226,20 +226,36 @@ func (x *Exec) convert(s *State, in *ssa.Convert) {
 	case isString(to) && isInt(from):
 		// string(rune): the UTF-8 encoding, a function of the rune; for every one-character string
 		// constant of this function it is that constant exactly when the rune is that character
-		if v.T.Sort != SBV32 {
-			r := x.fresh(s, "runestr", SStr)
+		var r T
+		var code T // the character code in the mode's integer sort, for the literal facts
+		lit := func(c byte) T { return BVLit(uint64(c), 32) }
+		switch {
+		case v.T.Sort == SBV32:
+			code = v.T
+			r = x.define(s, "runestr", mk(SStr, "runestr", code))
+		case v.T.Sort == SBV8:
+			code = mk(SBV32, "(_ zero_extend 24)", v.T) // string(byte) is string(rune(byte))
+			r = x.define(s, "runestr", mk(SStr, "runestr", code))
+		case v.T.Sort == SInt && x.mode == "int":
+			code = v.T
+			lit = func(c byte) T { return IntLit(int64(c)) }
+			r = x.define(s, "chrstr", mk(SStr, "chrstr_", code))
+		default:
+			r = x.fresh(s, "runestr", SStr)
 			s.assume(And(x.le(x.ilit(1), x.strLenRaw(r)), x.le(x.strLenRaw(r), x.ilit(4))))
 			fr.env[in] = scalar(r)
 			break
 		}
-		r := x.define(s, "runestr", mk(SStr, "runestr", v.T))
+		if code.S == "" {
+			break
+		}
 		s.assume(And(x.le(x.ilit(1), x.strLenRaw(r)), x.le(x.strLenRaw(r), x.ilit(4))))
 		for _, b := range in.Parent().Blocks {
 			for _, ins := range b.Instrs {
 				for _, op := range ins.Operands(nil) {
 					if c, ok := (*op).(*ssa.Const); ok && c.Value != nil && c.Value.Kind() == constant.String {
 						if txt := constant.StringVal(c.Value); len(txt) == 1 && txt[0] < 0x80 {
-							s.assume(mk(SBool, "=", Eq(r, x.strLit(s, txt)), Eq(v.T, BVLit(uint64(txt[0]), 32))))
+							s.assume(mk(SBool, "=", Eq(r, x.strLit(s, txt)), Eq(code, lit(txt[0]))))
 						}
 					}
 				}
